@@ -227,6 +227,31 @@ def run(ctx):
         ctx.count(pc)
         for key, msg in guarded(check_case, ctx, pc):
             ctx.violation(key, msg, pc)
+    # ---- the arithmetic core for ALL sizes up to 10^6, symbolically (Apalache); floor division must be refuted ---------
+    from .. import apalache
+
+    a_ok = apalache.check("MC_ChunkArith_True", "ChunkOK", timeout=600)
+    a_bad = apalache.check("MC_ChunkArith_False", "ChunkOK", timeout=600)
+    ctx.tlc_runs.append(a_ok)
+    ctx.tlc_runs.append(a_bad)
+    if a_bad["outcome"] != "Error":
+        from ..tlc import TLCError
+
+        raise TLCError("vacuity: Apalache does not refute the chunk arithmetic with floor division")
+    if a_ok["outcome"] != "NoError":
+        ctx.violation("spec:ChunkArith", "Apalache refutes ChunkOK for the transcribed ceil-division chunking (n, m in 1..10^6)", {"k": "apalache"})
+    ctx.bounds["chunk arithmetic (Apalache, symbolic)"] = "all n, m in 1..10^6"
+    # the real helper at a few large sizes inside that range (the small box is enumerated by TLC above)
+    from orquestra.quantum.circuits._itertools import expand_sample_sizes, split_into_batches
+
+    big = random.Random(ctx.seed + 17)
+    for _ in range(200):
+        n_, m_ = big.randint(1, 10**6), big.choice([1, 2, 7, 1000, 65536, 10**6, big.randint(1, 10**6)])
+        _, chunks, mult = expand_sample_sizes(["c"], [n_], m_)
+        bc = {"k": "expand-large", "n": n_, "max": m_}
+        ctx.count(bc, kind="expand at large sizes")
+        if sum(chunks) != n_ or any(c_ < 1 or c_ > m_ for c_ in chunks) or list(mult) != [len(chunks)] or len(chunks) != -(-n_ // m_):
+            ctx.violation("expand:large", "expand_sample_sizes(n=%d, max=%d): %d chunks, sum %d, min %d, max %d" % (n_, m_, len(chunks), sum(chunks), min(chunks), max(chunks)), bc)
     # ---- code -> spec --------------------------------------------------------------------------
     path = os.path.join(ctx.tmp, "shots.ndjson")
     events, nscale = _record_traces(ctx, b, path)
